@@ -69,8 +69,10 @@ pub open spec fn combine(a: Summary, b: Summary) -> Summary {
     Summary {
         total_items: (a.total_items + b.total_items) as u64,
         bases_covered: (a.bases_covered + b.bases_covered) as u64,
-        min_val: fmin(a.min_val, b.min_val),
-        max_val: fmax(a.max_val, b.max_val),
+        // C06: statistics over the covered bases: a chromosome that covers nothing has no min/max to contribute,
+        // and the first chromosome that covers something provides them unchanged
+        min_val: if b.bases_covered > 0 { if a.bases_covered == 0 { b.min_val } else { fmin(a.min_val, b.min_val) } } else { a.min_val },
+        max_val: if b.bases_covered > 0 { if a.bases_covered == 0 { b.max_val } else { fmax(a.max_val, b.max_val) } } else { a.max_val },
         sum: a.sum.add_spec(b.sum),
         sum_squares: a.sum_squares.add_spec(b.sum_squares),
     }
@@ -94,9 +96,17 @@ fn advance_write_vals(summary: &mut Option<Summary>, data: BBIDataProcessoredDat
             None => { *summary = Some(chrom_summary); }
             Some(summary) => {
                 summary.total_items = summary.total_items + (chrom_summary.total_items);
+                // A chromosome without any covered base has no minimum or maximum to contribute
+                if chrom_summary.bases_covered > 0 {
+                    if summary.bases_covered == 0 {
+                        summary.min_val = chrom_summary.min_val;
+                        summary.max_val = chrom_summary.max_val;
+                    } else {
+                        summary.min_val = summary.min_val.min(chrom_summary.min_val);
+                        summary.max_val = summary.max_val.max(chrom_summary.max_val);
+                    }
+                }
                 summary.bases_covered = summary.bases_covered + (chrom_summary.bases_covered);
-                summary.min_val = summary.min_val.min(chrom_summary.min_val);
-                summary.max_val = summary.max_val.max(chrom_summary.max_val);
                 summary.sum = summary.sum + (chrom_summary.sum);
                 summary.sum_squares = summary.sum_squares + (chrom_summary.sum_squares);
             }
@@ -121,9 +131,17 @@ fn advance_write_vals_no_zoom(summary: &mut Option<Summary>, chrom_summary: Summ
             None => { *summary = Some(chrom_summary); }
             Some(summary) => {
                 summary.total_items = summary.total_items + (chrom_summary.total_items);
+                // A chromosome without any covered base has no minimum or maximum to contribute
+                if chrom_summary.bases_covered > 0 {
+                    if summary.bases_covered == 0 {
+                        summary.min_val = chrom_summary.min_val;
+                        summary.max_val = chrom_summary.max_val;
+                    } else {
+                        summary.min_val = summary.min_val.min(chrom_summary.min_val);
+                        summary.max_val = summary.max_val.max(chrom_summary.max_val);
+                    }
+                }
                 summary.bases_covered = summary.bases_covered + (chrom_summary.bases_covered);
-                summary.min_val = summary.min_val.min(chrom_summary.min_val);
-                summary.max_val = summary.max_val.max(chrom_summary.max_val);
                 summary.sum = summary.sum + (chrom_summary.sum);
                 summary.sum_squares = summary.sum_squares + (chrom_summary.sum_squares);
             }
